@@ -1,3 +1,4 @@
 INIT InitD
 NEXT Next
 INVARIANT SupergatesOK
+CHECK_DEADLOCK FALSE
